@@ -171,7 +171,7 @@ def runAll (body : σ → Resume → Burst τ σ) (fuel n : Nat) (s : KState τ 
 def runUntilTime (body : σ → Resume → Burst τ σ) (fuel n : Nat) (at_ : τ) (s : KState τ σ) : RunResult τ σ :=
   if at_ ≤ s.now then .raised (valueErr "until must be > the current simulation time") s else
   let (s, u) := s.newEv { kind := .sentinel, cbs := some [], out := some (.ok .none) }
-  let s := s.schedule u URGENT (at_ - s.now)
+  let s := s.scheduleAt u URGENT at_
   let s := s.addCb u .stop
   runLoop body fuel true n s
 
